@@ -48,7 +48,13 @@
 
 #define VALIDATE_CONTAINER_SQL "select 1 from container where id = ?"
 
-#define DESTROY_CONTAINER_SQL "delete from container where id = ?"
+/*
+ * Save frames nested (at any depth) in the container go with it: their save_frame rows are removed by the schema's
+ * cascading deletes, but their container rows - and everything that hangs from those - would otherwise stay behind.
+ */
+#define DESTROY_CONTAINER_SQL "with recursive doomed(id) as (select ?1 union all " \
+        "select sf.container_id from save_frame sf join doomed d on sf.parent_id = d.id) " \
+        "delete from container where id in (select id from doomed)"
 
 #define CREATE_LOOP_SQL "insert into unnumbered_loop (container_id, category) values (?, ?)"
 
